@@ -80,7 +80,7 @@ CHECKS = {
         "Tie: CmdLine.regexpStr (real code, four configuration classes incl. absent file) vs the model; membership oracle: the word itself and 11 variants with evasion strings drawn from the configured pattern's syntax tree must match the generated regex; programs with cmdline blocks compared with the plain reading.",
    design="§7 C04", technique="Lean 4 proof (shape of the produced text) + differential correspondence + membership oracle on the real engine"),
  "C05": dict(
-   text="Lean theorems about the parser model: C05_plain_include (an include of a file of entries/comments/blank lines parses exactly like its lines typed in place, for every parser state and continuation; parseLines_plain), C05_scoped_affixes (prefixes/suffixes of an include become one local assemble block; none → no block), C05_no_leak (an include line changes only the text, not definitions/flags/prefixes/suffixes), C05_flags_rejected. Not proved: nested includes and includes carrying own definitions as a general inlining law (covered by the oracle). "
+   text="Lean theorems about the parser model: C05_plain_include (an include of a file of entries/comments/blank lines parses exactly like its lines typed in place, for every parser state and continuation; parseLines_plain), C05_nested_include (the recursive law: when the included file and everything it includes, to any depth within the parser's bound, consists of entries, comments, blank lines and further plain includes, the include line parses exactly like the recursively expanded entries typed in place — induction on the depth and on the lines), C05_scoped_affixes (prefixes/suffixes of an include become one local assemble block; none → no block), C05_no_leak (an include line changes only the text, not definitions/flags/prefixes/suffixes), C05_flags_rejected. Not proved: includes carrying own definitions or prefixes/suffixes as a general inlining law (covered by the oracle). "
         "Tie: parser.Parse (buffer, flags, prefixes, suffixes, variables) vs model; oracle: generate(program) = generate(program inlined and expanded by an independent naive reading), top level / assemble / cmdline, include and exclude directory, with/without .ra.",
    design="§7 C05", technique="Lean 4 proof (inlining law for plain includes) + differential correspondence + inline-by-hand oracle"),
  "C06": dict(
